@@ -233,3 +233,9 @@ def c05(work, tier, seed, replay):
 def c11(work, tier, seed, replay):
     import fam_gateway as fg
     return fg.c11(work, tier, seed)
+
+
+@check("C09")
+def c09(work, tier, seed, replay):
+    import fam_gateway as fg
+    return fg.c09(work, tier, seed)
